@@ -6,6 +6,7 @@ use crate::engine::Ctx;
 pub mod c01;
 pub mod c02;
 pub mod c03;
+pub mod c04;
 pub mod c05;
 pub mod c06;
 pub mod c07;
@@ -24,7 +25,7 @@ pub struct Prop {
 }
 
 pub fn all() -> Vec<Prop> {
-    vec![c01::PROP, c02::PROP, c03::PROP, c05::PROP, c06::PROP, c07::PROP, c08::PROP, c09::PROP, c16::PROP, c17::PROP, c18::PROP, c19::PROP]
+    vec![c01::PROP, c02::PROP, c03::PROP, c04::PROP, c05::PROP, c06::PROP, c07::PROP, c08::PROP, c09::PROP, c16::PROP, c17::PROP, c18::PROP, c19::PROP]
 }
 
 pub fn lookup(id: &str) -> Option<Prop> {
